@@ -247,3 +247,97 @@ Proof.
   - intros k. exact (trailers_nothing_else b k).
 Qed.
 Print Assumptions C04_status_and_trailers_spec.
+
+(* ---- response direction, continued: copyHeader, body bytes, trailers ---- *)
+
+(* Which backend headers reach the client, overwrite vs add. (1) The skip table regenerated from
+   reverseproxy.go is exactly the documented one (Content-Type, Content-Disposition, Accept-Ranges,
+   Set-Cookie, Cache-Control, Expires). (2) copyHeader, for EVERY destination map, backend header map
+   (a Go map with canonical keys) and key k: a header the backend does not send keeps the value the
+   ResponseWriter already had; one the writer did not have yet arrives with all its values; when both
+   exist a header of the skip table keeps the writer's value, Server gets the backend's values
+   appended, every other header is overwritten by the backend's values. (3) The header map handed to
+   the client is that function of what the writer already carried (pre) and of the backend header
+   after hop-by-hop removal and exactly the header_downstream operations. *)
+Theorem C04_response_copy_header_spec :
+  (forall k, mem k gen_skip_headers = mem k spec_skip) /\
+  (forall dst src k, NoDup (map fst src) -> (forall k', In k' (map fst src) -> canon_key k' = k') ->
+     hlookup (copy_header dst src) k = copy_value gen_skip_headers (hlookup dst k) (hlookup src k) k) /\
+  (forall c e live pre b k, keys_ok (b_hdr b) -> k <> K_TRAILER \/ b_announced b = [] ->
+     hlookup (v_hdr (client_view c e live pre b)) k =
+     copy_value gen_skip_headers (hlookup pre k)
+       (fold_left vop_apply (vops_for (subst_of e live) (c_down c) k ++ revops_for (subst_of e live) (c_downre c) k)
+                  (hlookup (resp_strip (b_hdr b)) k)) k).
+Proof. exact response_copy_header_spec. Qed.
+Print Assumptions C04_response_copy_header_spec.
+
+Example C04_response_copy_header_nonvacuous :
+  let dst : hdr := [(bs "Content-Type"%string, [bs "text/pre"%string]); (K_SERVER, [bs "Casket"%string]); (bs "X-A"%string, [bs "pre"%string])] in
+  let src : hdr := [(bs "Content-Type"%string, [bs "text/html"%string]); (K_SERVER, [bs "backend"%string]);
+                    (bs "X-A"%string, [bs "v1"%string; bs "v2"%string]); (bs "X-B"%string, [bs "b"%string])] in
+  keys_ok src /\
+  hlookup (copy_header dst src) (bs "Content-Type"%string) = Some [bs "text/pre"%string] /\
+  hlookup (copy_header dst src) K_SERVER = Some [bs "Casket"%string; bs "backend"%string] /\
+  hlookup (copy_header dst src) (bs "X-A"%string) = Some [bs "v1"%string; bs "v2"%string] /\
+  hlookup (copy_header dst src) (bs "X-B"%string) = Some [bs "b"%string].
+Proof. exact copy_header_nonvacuous. Qed.
+
+(* Body bytes. The copy loop of copyResponse/pooledIoCopy (io.CopyBuffer), for EVERY body, EVERY
+   behaviour of the backend body reader (any segmentation: a cap for every Read, Reads returning no
+   bytes, EOF with or after the last bytes) and EVERY buffer size > 0: the Write calls, concatenated,
+   are exactly the body, and each is non-empty and fits the buffer. And whatever the header map and
+   the trailers, wherever Flush calls (flush timer) fall between those writes, the bytes the
+   ResponseWriter delivers to the client are exactly the body. *)
+Theorem C04_body_relay_spec :
+  forall bufsz r, (0 < bufsz)%nat ->
+  (concat (copy_writes bufsz r) = r_data r /\ Forall (fun w => (0 < length w <= bufsz)%nat) (copy_writes bufsz r)) /\
+  (forall h b mid, flush_interleave (map OWrite (copy_writes bufsz r)) mid ->
+                   rs_out (rw_run true h (resp_ops_with b mid)) = r_data r).
+Proof. exact body_relay_spec. Qed.
+Print Assumptions C04_body_relay_spec.
+
+(* Request body with retries: newBufferedBody reads the body once, every attempt re-reads it from
+   the start - each of the attempts carries exactly the client's body. (Sharing of the buffer's
+   memory with other requests is outside this model: that is what the concurrent cases observe.) *)
+Theorem C04_request_body_every_attempt :
+  forall body n i, (i < n)%nat -> nth_error (buffered_attempt_bodies body n) i = Some body.
+Proof. exact request_body_every_attempt. Qed.
+Print Assumptions C04_request_body_every_attempt.
+
+(* Trailers through the ResponseWriter of net/http's server, for EVERY body (every length: shorter
+   or longer than the server's 2048-byte buffer), reader behaviour, buffer size and placement of
+   flush-timer Flush calls: the status is the backend's; announced trailer keys are sent in the
+   Trailer header; whenever there is any trailer the response is chunked (never given a
+   Content-Length, which would drop them); and the trailers written after the body are exactly the
+   backend's final trailers, key by key - announced ones through their declared keys, and as soon
+   as one unannounced trailer arrived, all of them through "Trailer:"-prefixed keys after a Flush.
+   Hypotheses: the header map handed to the writer is a map without Content-Length, Trailer or
+   "Trailer:"-prefixed keys; trailer keys are distinct canonical single tokens other than "Trailer",
+   and an announced key is not also a response header. *)
+Theorem C04_trailers_spec :
+  forall h b r bufsz mid,
+  client_hdr_ok h -> trailer_keys_ok h b -> flush_interleave (map OWrite (copy_writes bufsz r)) mid ->
+  let s := rw_run true h (resp_ops_with b mid) in
+  rs_status s = Some (b_status b) /\
+  (b_announced b <> [] -> hlookup (rs_snap s) K_TRAILER = Some (b_announced b)) /\
+  (b_announced b <> [] \/ b_trailers b <> [] -> rs_chunking s = true) /\
+  (forall k, olist (hlookup (rw_trailers s) k) = olist (hlookup (final_trailers b) k)).
+Proof. exact trailers_spec. Qed.
+Print Assumptions C04_trailers_spec.
+
+Example C04_trailers_spec_nonvacuous :
+  client_hdr_ok wit_rh /\ trailer_keys_ok wit_rh wit_rb /\ trailer_keys_ok wit_rh wit_rb_unannounced /\
+  flush_interleave (map OWrite (copy_writes 4 wit_reader)) (OWrite (bs "012"%string) :: OFlush :: map OWrite [bs "3"%string; bs "4567"%string; bs "89"%string]) /\
+  hlookup (rw_trailers (rw_run true wit_rh (resp_ops wit_rb (copy_writes 4 wit_reader)))) (bs "X-U1"%string) = Some [bs "t2"%string; bs "t3"%string] /\
+  hlookup (rw_trailers (rw_run true wit_rh (resp_ops wit_rb (copy_writes 4 wit_reader)))) (bs "X-T1"%string) = Some [bs "t1"%string].
+Proof. exact trailers_spec_nonvacuous. Qed.
+
+(* the witness of the former finding F-C04-6: without the Flush that precedes unannounced trailers a
+   short body gets a Content-Length and the trailers are lost; with it they arrive *)
+Example C04_trailers_flush_needed :
+  let old := rw_run true wit_rh (resp_ops_old wit_rb_unannounced [bs "short body"%string]) in
+  let new := rw_run true wit_rh (resp_ops wit_rb_unannounced [bs "short body"%string]) in
+  rs_chunking old = false /\ rs_cl old = Some 10%nat /\ rw_trailers old = [] /\
+  rs_chunking new = true /\ hlookup (rw_trailers new) (bs "X-U1"%string) = Some [bs "t2"%string] /\
+  rs_out old = rs_out new.
+Proof. exact trailers_flush_needed. Qed.
